@@ -6,16 +6,29 @@ open GIV Driver
 /-!
   gim_par — replays traces of the instrumented par package in the Lean models.
 
-    work  <n> <init> <graph> <events>      (items are numbers; `-` = empty)
-    cache <programs> <events>
+    work  <n> <init> <graph> <events>      (items are numbers; `-` = empty; `a..b` in an item list is the
+                                            range a, a+1, …, b; a graph part `a..b>cs` gives every item of
+                                            the range the children cs)
+    cache <programs> <events>              (ops `d<k>` = Do, `g<k>` = Get, `n<k>` = Do on a NIL KEY: every
+                                            key that occurs in an `n` op has an f that returns nil)
 
   answer: `ok <summary of the final model state>` or `reject <index of the refused event> <reason>`.
   A pseudo event `t:B:<ids>` (emitted by the harness at scheduling points) asserts that exactly the
   listed tasks are alive but have no enabled step.
 -/
 
+/-- one element of an item list: a number, or a range `a..b` (both ends included) -/
+def natRange (s : String) : Option (List Nat) :=
+  match s.splitOn ".." with
+  | [a] => a.toNat?.map fun a => [a]
+  | [a, b] => do
+    let a ← a.toNat?
+    let b ← b.toNat?
+    pure ((List.range (b + 1 - a)).map (· + a))
+  | _ => none
+
 def natList (sep : String) (s : String) : Option (List Nat) :=
-  if s == "-" || s == "" then some [] else (s.splitOn sep).mapM String.toNat?
+  if s == "-" || s == "" then some [] else ((s.splitOn sep).mapM natRange).map List.flatten
 
 def showNats (l : List Nat) : String := if l.isEmpty then "-" else ",".intercalate (l.map toString)
 
@@ -26,13 +39,13 @@ def lookupChildren (g : List (Nat × List Nat)) (x : Nat) : List Nat :=
 
 def parseGraph (s : String) : Option (List (Nat × List Nat)) :=
   if s == "-" then some [] else
-  (s.splitOn ";").mapM fun part =>
+  ((s.splitOn ";").mapM fun (part : String) =>
     match part.splitOn ">" with
     | [x, cs] => do
-      let x ← x.toNat?
+      let xs ← natRange x
       let cs ← natList "," cs
-      pure (x, cs)
-    | _ => none
+      pure (xs.map fun x => (x, cs))
+    | _ => none).map List.flatten
 
 namespace W
 open GIV.ParWork
@@ -116,8 +129,16 @@ inductive Item' | ev (t : Nat) (e : Event) | blocked (ids : List Nat)
 def parseOp (s : String) : Option Op :=
   match s.toList with
   | 'd' :: r => (String.ofList r).toNat?.map .doK
+  | 'n' :: r => (String.ofList r).toNat?.map .doK
   | 'g' :: r => (String.ofList r).toNat?.map .getK
   | _ => none
+
+/-- the nil keys of a program text: every key that occurs in an `n<k>` op -/
+def nilKeys (s : String) : List Nat :=
+  ((s.splitOn "|").map fun g => (g.splitOn ";").filterMap fun op =>
+    match op.toList with
+    | 'n' :: r => (String.ofList r).toNat?
+    | _ => none).flatten
 
 def parseProg (s : String) : Option (List (List Op)) :=
   (s.splitOn "|").mapM fun g => if g == "-" || g == "" then some [] else (g.splitOn ";").mapM parseOp
@@ -149,10 +170,7 @@ def parseEvent (s : String) : Option Item' :=
       | ["lock", k] => k.toNat?.map .lock
       | ["unlock", k] => k.toNat?.map .unlock
       | ["fe", k] => k.toNat?.map .fEnter
-      | ["fx", k, v] => do
-        match ← parseVal v with
-        | some v => pure (.fExit (← k.toNat?) v)
-        | none => none
+      | ["fx", k, v] => do pure (.fExit (← k.toNat?) (← parseVal v))
       | _ => none
     pure (.ev t e)
   | [] => none
@@ -177,6 +195,11 @@ def showVal : Option Val → String
   | none => "nil"
   | some v => s!"{v.key}.{v.call}"
 
+/-- what the completed invocation of f returned; `-` while none has completed -/
+def showFret : Option (Option Val) → String
+  | none => "-"
+  | some v => showVal v
+
 def keysOf (p : List (List Op)) : List Nat :=
   (p.flatten.map fun | .doK k => k | .getK k => k).eraseDups
 
@@ -185,13 +208,14 @@ def summary (c : Cfg) (nt : Nat) (keys : List Nat) (s : State) : String :=
   let fin := (List.range nt).all fun t => s.pc t == .exited
   let ks := keys.map fun k =>
     let e := s.key k
-    s!"{k}:alloc={e.alloc},done={e.done},owner={match e.owner with | some t => toString t | none => "-"},result={showVal e.result},fcalls={e.fcalls},fret={showVal e.fret}"
+    s!"{k}:alloc={e.alloc},done={e.done},owner={match e.owner with | some t => toString t | none => "-"},result={showVal e.result},fcalls={e.fcalls},fret={showFret e.fret}"
   s!"final={fin} enabled={showNats en} keys={";".intercalate ks} pcs={",".intercalate ((List.range nt).map fun t => showPc (s.pc t))}"
 
 def handle (prog events : String) : String :=
   match parseProg prog, (if events == "-" then some [] else (events.splitOn "|").mapM parseEvent) with
   | some p, some evs =>
-    let c : Cfg := { prog := fun t => match p[t]? with | some l => l | none => [] }
+    let nk := nilKeys prog
+    let c : Cfg := { prog := fun t => match p[t]? with | some l => l | none => [], nilKey := fun k => nk.contains k }
     match run c p.length (init0 c) 0 evs with
     | .ok s => "ok " ++ summary c p.length (keysOf p).mergeSort s
     | .error (i, why) => s!"reject {i} {why}"
